@@ -60,6 +60,76 @@ pub fn programs12() -> Vec<Prog> {
     v
 }
 
+/// A loop storing its (non-zero) counter into `n` consecutive words from x4000 on: the number of
+/// words a history dirties before `reset` is the parameter.
+pub fn store_loop(n: u16) -> Prog {
+    let mut p = Program::default();
+    p.push(Some("first"), Stmt::Mem(PcRel::Ld, 1, lbl("count")));
+    p.push(None, Stmt::Mem(PcRel::Ld, 2, lbl("base")));
+    p.push(Some("slot"), Stmt::Str(1, 2, Lit::dec(0)));
+    p.push(None, Stmt::Add(2, 2, Src2::Imm(Lit::dec(1))));
+    p.push(None, Stmt::Add(1, 1, Src2::Imm(Lit::dec(-1))));
+    p.push(None, Stmt::Br(0b101, "brnp".into(), lbl("slot")));
+    p.push(Some("end"), Stmt::Named(0x25, "halt"));
+    p.push(Some("count"), Stmt::Fill(Lit::hex(n)));
+    p.push(Some("base"), Stmt::Fill(Lit::hex(0x4000)));
+    p.push(Some("data"), Stmt::Fill(Lit::hex(0x0000)));
+    Prog::new(Box::leak(format!("store-loop-{n}").into_boxed_str()), p, true)
+}
+
+/// Numbers of dirtied words: every power of two up to 2^15 and its neighbours, and all of
+/// x4000..xFDFF.
+pub fn store_counts() -> Vec<u16> {
+    let mut v: Vec<u16> = Vec::new();
+    for k in 0..=15u32 {
+        for d in [-1i32, 0, 1] {
+            let n = (1i32 << k) + d;
+            if n >= 1 && n <= 0xBE00 && !v.contains(&(n as u16)) {
+                v.push(n as u16);
+            }
+        }
+    }
+    v.push(0xBE00);
+    v
+}
+
+const MANY_FUEL: u64 = 1_500_000;
+
+/// The histories of the many-writes section, as scripts over {continue, reset}.
+fn many_histories() -> Vec<Vec<Cmd>> {
+    vec![
+        vec![Cmd::Continue, Cmd::Reset],
+        vec![Cmd::Continue, Cmd::Reset, Cmd::Reset],
+        vec![Cmd::Continue, Cmd::Reset, Cmd::Continue, Cmd::Reset],
+        vec![Cmd::StepInto(9), Cmd::Reset, Cmd::Continue, Cmd::Reset],
+        vec![Cmd::Continue, Cmd::Reset, Cmd::StepInto(9), Cmd::Reset],
+    ]
+}
+
+fn judge_many(n: u16, hi: usize) -> Result<(), Mismatch> {
+    let prog = store_loop(n);
+    let acts: Vec<Action> = many_histories()[hi].iter().cloned().map(Action::of).collect();
+    let actions: Vec<&Action> = acts.iter().collect();
+    let init = prog.reference().init;
+    let r = run_real_fuel(&prog, &actions, Tail::Exit, true, MANY_FUEL).map_err(|(sig, what)| Mismatch { sig: format!("many-writes/{sig}"), what })?;
+    if !matches!(r.ended, Ended::Returned) {
+        return Err(Mismatch { sig: "many-writes/session-ended".into(), what: format!("the session ended {:?} before `exit`", r.ended) });
+    }
+    if let Some(d) = machine_diff(&r.machine, &init) {
+        return Err(Mismatch { sig: format!("many-writes/not-initial/{}", machine_diff_kind(&r.machine, &init).unwrap_or("?")), what: format!("after a history that stored into {n} words and ends in `reset` the machine differs from the one right after load: {d}") });
+    }
+    // ... and the run after the reset behaves like a fresh one
+    let q = run_real_fuel(&prog, &actions, Tail::Quit, true, MANY_FUEL).map_err(|(sig, what)| Mismatch { sig: format!("many-writes/{sig}"), what })?;
+    let p = run_image(&prog.image.raw(), Env::new(true), MANY_FUEL).map_err(|e| Mismatch { sig: "many-writes/plain-run".into(), what: format!("{e:?}") })?.map_err(|e| Mismatch { sig: "many-writes/plain-run".into(), what: format!("{e:?}") })?;
+    if q.ended != p.ended {
+        return Err(Mismatch { sig: "many-writes/run-after-reset/ends-differently".into(), what: format!("run after reset ended {:?}, a fresh run ends {:?}", q.ended, p.ended) });
+    }
+    if let Some(d) = machine_diff(&q.machine, &p.machine) {
+        return Err(Mismatch { sig: format!("many-writes/run-after-reset/{}", machine_diff_kind(&q.machine, &p.machine).unwrap_or("?")), what: format!("final machine of the run after reset differs from a fresh run: {d}") });
+    }
+    Ok(())
+}
+
 pub fn alphabet(prog: &Prog) -> Vec<Action> {
     let orig = prog.image.origin();
     vec![
@@ -171,20 +241,51 @@ pub fn run(ctx: &Ctx) -> i32 {
         out
     };
     let cfg = bfs::Config { max_depth: depth, dedup: true, state_cap: 1_000_000, wall_cap_s: ctx.tier.pick(45, 1200) };
-    let (acc, stats) = bfs::explore(roots, &cfg, Some(Env::new(true)), step);
+    let (mut acc, stats) = bfs::explore(roots, &cfg, Some(Env::new(true)), step);
+    // many dirtied words: a store loop over n words for every n around a power of two, under
+    // every history of the small menu above
+    let counts = store_counts();
+    let nh = many_histories().len();
+    let parts = crate::isolate::pooled(Some(Env::new(true)), counts.len() * nh, 1, Acc::new, |acc, i| {
+        let (n, hi) = (counts[i / nh], i % nh);
+        acc.eval("many-writes");
+        let mut r = judge_many(n, hi);
+        if r.is_err() {
+            r = crate::isolate::confirm_fresh(|| judge_many(n, hi));
+        }
+        match r {
+            Ok(()) => {
+                acc.nontrivial();
+                acc.gate("many-writes-reset-checked");
+                acc.outcome(format!("many-writes/history-{hi}"));
+            }
+            Err(m) => {
+                let script: Vec<String> = many_histories()[hi].iter().map(|c| format!("{c:?}")).collect();
+                acc.outcome(format!("violation:{}", m.sig));
+                acc.violation(format!("C12/{}", m.sig), m.what, json!({"check": "c12", "many_writes": n, "history_index": hi, "program": format!("store-loop-{n}"), "source": store_loop(n).text, "script": script.join("; ")}));
+            }
+        }
+    });
+    for p in parts {
+        acc.merge(p);
+    }
     finish(
         ctx,
         acc,
         Level { category: "model_checking", bfs: Some((stats.states, stats.transitions, 4 * stats.transitions, stats.max_depth)) },
-        "explicit-state BFS over histories of executing and mutating commands (step, step into 3, continue, move into two registers, into the program's own code, its data, the stack area and below the origin, goto, eval ST/STR storing into data and the stack, break add, reset) on a self-modifying program, a loop at origin x0400 and a program storing below the origin and above user space (also through eval STR with a base register pointing outside user space). For every state reached the real debugger is run four times: history; history+reset (all registers, PC, CC and all 65,536 memory words must equal the reference machine right after load); history+reset+reset; history+reset+quit (end, final machine and output must equal a plain run of the image). non-trivial = states on which all four agreed",
+        "explicit-state BFS over histories of executing and mutating commands (step, step into 3, continue, move into two registers, into the program's own code, its data, the stack area and below the origin, goto, eval ST/STR storing into data and the stack, break add, reset) on a self-modifying program, a loop at origin x0400 and a program storing below the origin and above user space (also through eval STR with a base register pointing outside user space). For every state reached the real debugger is run four times: history; history+reset (all registers, PC, CC and all 65,536 memory words must equal the reference machine right after load); history+reset+reset; history+reset+quit (end, final machine and output must equal a plain run of the image). Plus a many-writes section: a loop storing into n consecutive words for every n in {2^k-1, 2^k, 2^k+1 : k <= 15} and n = xBE00 (all of x4000..xFDFF), under 5 histories over {continue, step into 9, reset} ending in reset (machine equals the loaded one; a run after it equals a fresh run). non-trivial = states on which all four agreed",
         !stats.capped,
-        &["reset-checked", "memory-mutated-before-reset"],
+        &["reset-checked", "memory-mutated-before-reset", "many-writes-reset-checked"],
         &["initial machine = refmodel::vm::Machine::load of the reference image (C01/C03 bind it to the real loader)"],
         json!({"depth": depth, "states": stats.states, "per_level": stats.per_level, "capped": stats.capped}),
     )
 }
 
 pub fn replay(_ctx: &Ctx, case: &Value) -> Option<Option<String>> {
+    if let Some(n) = case["many_writes"].as_u64() {
+        let hi = case["history_index"].as_u64()? as usize;
+        return Some(crate::isolate::confirm_fresh(|| judge_many(n as u16, hi)).err().map(|m| format!("{}: {}", m.sig, m.what)));
+    }
     let name = case["program"].as_str()?;
     let hist: Vec<u8> = case["history"].as_array()?.iter().map(|v| v.as_u64().unwrap() as u8).collect();
     let progs = programs12();
